@@ -103,7 +103,76 @@ func fieldRenameAliases(pkg *types.Package) []string {
 			out = append(out, parts[0]+"."+oldName+" -> "+parts[0]+"."+st.Field(i).Name())
 		}
 	}
+	out = append(out, promotedFieldAliases(pkg)...)
 	sort.Strings(out)
+	return out
+}
+
+// promotedOwner: a field that moved, with its name and type, from a struct T of the pinned tree into a struct that T
+// now embeds (and that did not exist before): the rules go on knowing it as T.f, and a load of it through the embedded
+// struct counts as a load from the T object.
+var promotedOwner = map[*types.Var]string{}
+
+func promotedFieldAliases(pkg *types.Package) []string {
+	promotedOwner = map[*types.Var]string{}
+	baseline := map[string]bool{}
+	lines := strings.Split(baselineFieldsTxt, "\n")
+	for _, l := range lines {
+		if parts := strings.SplitN(strings.TrimSpace(l), "\t", 2); len(parts) == 2 {
+			baseline[parts[0]] = true
+		}
+	}
+	var out []string
+	for _, l := range lines {
+		parts := strings.SplitN(strings.TrimSpace(l), "\t", 2)
+		if len(parts) != 2 || strings.HasPrefix(parts[0], "#") {
+			continue
+		}
+		tn, ok := pkg.Scope().Lookup(parts[0]).(*types.TypeName)
+		if !ok {
+			continue
+		}
+		st, ok := tn.Type().Underlying().(*types.Struct)
+		if !ok {
+			continue
+		}
+		have := map[string]bool{}
+		for i := 0; i < st.NumFields(); i++ {
+			have[st.Field(i).Name()] = true
+		}
+		for _, o := range strings.Split(parts[1], "|") {
+			nt := strings.SplitN(o, ":", 2)
+			if len(nt) != 2 || have[nt[0]] {
+				continue
+			}
+			var found *types.Var
+			n := 0
+			for i := 0; i < st.NumFields(); i++ {
+				ef := st.Field(i)
+				if !ef.Embedded() {
+					continue
+				}
+				en, isNamed := ef.Type().(*types.Named)
+				if !isNamed || baseline[en.Obj().Name()] {
+					continue
+				}
+				est, isSt := en.Underlying().(*types.Struct)
+				if !isSt {
+					continue
+				}
+				for k := 0; k < est.NumFields(); k++ {
+					if est.Field(k).Name() == nt[0] && types.TypeString(est.Field(k).Type(), types.RelativeTo(pkg)) == nt[1] {
+						found = est.Field(k)
+						n++
+					}
+				}
+			}
+			if n == 1 {
+				promotedOwner[found] = parts[0]
+				out = append(out, parts[0]+"."+nt[0]+" -> (embedded) "+found.Name())
+			}
+		}
+	}
 	return out
 }
 
